@@ -16,7 +16,8 @@ From MZ.model Require Import InflateCore.
 From Coq Require Import ZArith Bool.
 From MZ.spec Require Adler Zlib.
 From MZ.model Require Import InflateStream.
-From MZ.proofs Require Import DeflateFlags StoredSpec InflateStored InflateStoredZ InflateStoredChunks InflateStoredTotal InflateStoredApi.
+From MZ.proofs Require Import DeflateFlags StoredSpec InflateStored InflateStoredZ InflateStoredChunks InflateStoredTotal InflateStoredApi InflateStoredGen.
+From MZ.proofs Require InflateBasic.
 Import ListNotations.
 Local Open Scope N_scope.
 
@@ -125,6 +126,42 @@ Example C03_slices_decode :
   let stream := 120 :: 1 :: stored_stream [[97; 98; 99]] [100; 101] ++ be32 (Adler.adler32 1 data) in
   match decompress_slice_iter_to_slice 6 [firstn 9 stream; []; skipn 9 stream ++ [7]] true false with
   | Ret (s, n, o') => s = Done /\ n = 5 /\ aget_list o' 0 5 = data
+  | _ => False
+  end.
+Proof. vm_compute. repeat split; reflexivity. Qed.
+
+(* ... and with the output placed anywhere - in particular in a ring buffer: every call may be given ANY buffer
+   (flat with NON_WRAPPING, or without it a power-of-two ring no smaller than the window the zlib header
+   declares), ANY position in it and ANY budget; what the calls wrote, concatenated by the caller, is always
+   a prefix of the payload and, at the final status, the payload (any trailer value A: Adler32Mismatch iff wrong) *)
+Theorem C03_stored_block_streams_any_output_placement_partial :
+  forall flags zl cmf flg A chunks last extra (sched : list (list N * arr * N * N)) later,
+  has flags F_ZLIB = zl -> has flags F_STOPBB = false -> has flags F_MORE = true ->
+  cmf < 256 -> flg < 256 -> Zlib.valid_header (Z.of_N cmf) (Z.of_N flg) = true -> A < 2 ^ 32 ->
+  chunks_ok chunks -> bytes_ok last -> N.of_nat (length last) <= 65535 ->
+  let data := concat chunks ++ last in
+  let stream := (if zl then [cmf; flg] else []) ++ stored_stream chunks last ++ (if zl then be32 A else []) in
+  let offered := concat (map (fun it => fst (fst (fst it))) sched) in
+  offered ++ later = stream ++ extra ->
+  Forall (fun it : list N * arr * N * N => let '(piece, o, p, budget) := it in
+            InflateBasic.geometry_ok o p flags = true /\ alen o <= USIZE_MAX /\
+            (has flags F_NONWRAP = true \/
+             (has flags F_NONWRAP = false /\ 0 < alen o /\ (Zlib.header_window (Z.of_N cmf) <= Z.of_N (alen o))%Z))) sched ->
+  N.of_nat (length offered) < 2 ^ 57 ->
+  exists s total acc,
+  feed3 flags dec_default [] sched 0 NeedsMoreInput [] = Ret (s, total, acc) /\
+  acc = firstn (length acc) data /\ total <= N.of_nat (length offered) /\
+  (s = HasMoreOutput \/ (s = NeedsMoreInput /\ later <> []) \/
+   (s = (if has flags F_IGNORE || negb zl || (Adler.adler32 1 data =? A) then Done else Adler32Mismatch) /\
+    acc = data /\ total = N.of_nat (length stream))).
+Proof. exact stored_stream_any_placement. Qed.
+
+(* non-vacuity: a raw stream decoded through a 4-byte ring (flags HAS_MORE_INPUT only): first call fills the
+   ring, the caller empties it and calls again at offset 0 *)
+Example C03_through_a_ring :
+  let stream := stored_stream [[97; 98; 99]] [100; 101] in
+  match feed3 2 dec_default [] [(stream, amake 4 0, 0, USIZE_MAX); ([], amake 4 0, 0, USIZE_MAX)] 0 NeedsMoreInput [] with
+  | Ret (s, total, acc) => s = Done /\ total = 15 /\ acc = [97; 98; 99; 100; 101]
   | _ => False
   end.
 Proof. vm_compute. repeat split; reflexivity. Qed.
